@@ -20,7 +20,11 @@ pub fn scenario(idx: usize, seed: u64, tier_mult: usize) -> ScenarioResult {
         let rtt_us = 2 * lat_ms * 1_000;
         let loss = if rng.gen_bool(0.3) { rng.gen_range(0.01..0.1) } else { 0.0 };
         w.fabric.set_default_link(LinkParams { latency_min: lat, latency_max: lat, loss: 0.0, dup: 0.0 });
-        let limit: u64 = *[1u64, 4, 100].get(idx % 3).unwrap();
+        // every fourth scenario: the callee's service applies back-pressure (one request at a time)
+        // and a long call that is not abandoned holds the slot, so abandoned requests are parked
+        // waiting for service readiness when the caller gives up
+        let backpressure = idx % 4 == 3;
+        let limit: u64 = if backpressure { 100 } else { *[1u64, 4, 100].get(idx % 3).unwrap() };
         let mk = |w: &mut World, limit: u64, outbound_ms: Option<u64>| {
             let mut c = NodeCfg::new(w.gen_key());
             let mut q = anemo::QuicConfig::default();
@@ -33,7 +37,10 @@ pub fn scenario(idx: usize, seed: u64, tier_mult: usize) -> ScenarioResult {
         };
         let ca = mk(&mut w, 100, None);
         let a = w.start_node(ca).unwrap();
-        let cb = mk(&mut w, limit, None);
+        let mut cb = mk(&mut w, limit, None);
+        if backpressure {
+            cb.concurrency_limit = Some(1);
+        }
         let b = w.start_node(cb).unwrap();
         if a.net.connect(b.addr).await.is_err() {
             w.close();
@@ -65,6 +72,14 @@ pub fn scenario(idx: usize, seed: u64, tier_mult: usize) -> ScenarioResult {
         let mut abandoned: Vec<(u64, u64)> = Vec::new(); // (id, t_a)
         let mut sibling_tasks = Vec::new();
         let mut n_completed_before = 0u64;
+        if backpressure {
+            let log = w.log.clone();
+            let net = a.net.clone();
+            let (ai, bp) = (a.idx, b.peer_id);
+            let hold = RpcSpec::simple(10, 77).with_script(Script { delay_us: 400 * rtt_us, resp_len: 10, status: 200, nhdr: 0, seed: 5 });
+            sibling_tasks.push(tokio::spawn(async move { world::rpc(&log, &net, ai, bp, &hold).await }));
+            tokio::time::sleep(Duration::from_micros(3 * rtt_us)).await;
+        }
         let mut hows: BTreeMap<&'static str, u64> = BTreeMap::new();
         for k in 0..n_abandon {
             if !problems.is_empty() {
@@ -212,7 +227,10 @@ pub fn scenario(idx: usize, seed: u64, tier_mult: usize) -> ScenarioResult {
         // a fresh rpc on the same connection must work promptly
         let tf = w.now();
         let fresh = tokio::time::timeout(
-            Duration::from_micros(20 * unloaded + 200_000 + if loss > 0.0 { 3_000_000 } else { 0 }),
+            // "never blocks later RPCs" is about not hanging: stream credit and flow-control credit of
+            // the aborted transfers come back within a few round trips, but pacing after many aborted
+            // 100 KB transfers can add tens of round trips; a leak makes the call wait for ever
+            Duration::from_micros(20 * unloaded + 5_000_000),
             world::rpc(&w.log, &a.net, a.idx, b.peer_id, &RpcSpec::simple(16, 2)),
         )
         .await;
@@ -221,7 +239,7 @@ pub fn scenario(idx: usize, seed: u64, tier_mult: usize) -> ScenarioResult {
             Ok((_, Ok(_))) => {}
             Ok((_, Err(e))) => problems.push(format!("fresh rpc after {} abandoned rpcs (stream limit {limit}) failed: {e:#}", abandoned.len())),
             Err(_) => problems.push(format!(
-                "fresh rpc after {} abandoned rpcs (stream limit {limit}) did not complete within 20x its unloaded latency ({unloaded} us)",
+                "fresh rpc after {} abandoned rpcs (stream limit {limit}) did not complete within 20x its unloaded latency ({unloaded} us) + 5 s",
                 abandoned.len()
             )),
         }
@@ -246,7 +264,7 @@ pub fn scenario(idx: usize, seed: u64, tier_mult: usize) -> ScenarioResult {
             ScenarioResult::violated(problems[0].clone(), wit)
         } else {
             ScenarioResult::held(format!(
-                "limit={limit} body={body_class} lossy={} phases={:?}",
+                "limit={limit} bp={backpressure} body={body_class} lossy={} phases={:?}",
                 loss > 0.0,
                 phases.keys().map(|k| &k[..2]).collect::<Vec<_>>()
             ))
@@ -256,7 +274,8 @@ pub fn scenario(idx: usize, seed: u64, tier_mult: usize) -> ScenarioResult {
             .count("rpcs_abandoned", abandoned.len() as u64)
             .count("handlers_cancelled", n_cancelled)
             .count("abandoned_before_handler_start", n_never_started)
-            .count("fresh_rpc_checks", 1);
+            .count("fresh_rpc_checks", 1)
+            .count("backpressure_scenarios", backpressure as u64);
         for (k, v) in phases {
             res.add(&format!("phase:{k}"), v);
         }
@@ -289,6 +308,6 @@ pub fn run(ctx: &Ctx) -> i32 {
         extra: Default::default(),
         exhaustive: None,
         min_signatures: 8,
-        required_counters: vec!["rpcs_abandoned", "handlers_cancelled", "phase:P1:request-in-transit", "phase:P2:handler-running", "phase:P3:response-in-transit", "phase:P4:completed-before-abandon"],
+        required_counters: vec!["rpcs_abandoned", "backpressure_scenarios", "handlers_cancelled", "phase:P1:request-in-transit", "phase:P2:handler-running", "phase:P3:response-in-transit", "phase:P4:completed-before-abandon"],
     })
 }
